@@ -51,6 +51,18 @@ def _worker(args):
     return st
 
 
+def _frontier_worker(args):
+    modname, item = args
+    os.environ["SOLVOR_VERIF"] = "1"
+    mod = importlib.import_module(modname)
+    harness = getattr(mod, item["harness"])
+    try:
+        pf = Explorer(harness, item["params"]).frontier(item["split"])
+    except BaseException as e:
+        return item, None
+    return item, pf
+
+
 def load_known_findings():
     p = os.path.join(VERIF, "known_findings.json")
     if not os.path.exists(p):
@@ -76,9 +88,27 @@ def run_check(modname, tier, seed, replay=None):
     errors = []
     per_item = []
     skipped = 0
-    work = [(modname, it, opts) for it in items]
     ctx = mp.get_context("fork")
-    with ctx.Pool(nproc, maxtasksperchild=opts.get("maxtasks", 50)) as pool:
+    split_items = [it for it in items if it.get("split")]
+    if split_items:
+        with ctx.Pool(min(nproc, len(split_items))) as pool:
+            expanded = pool.map(_frontier_worker, [(modname, it) for it in split_items], chunksize=1)
+        items = [it for it in items if not it.get("split")]
+        big = []
+        for it, pfs in expanded:
+            if pfs is None:
+                it2 = dict(it)
+                it2.pop("split")
+                big.append(it2)
+                continue
+            for pf in pfs:
+                it2 = dict(it)
+                it2.pop("split")
+                it2["prefix"] = pf
+                big.append(it2)
+        items = big + items
+    work = [(modname, it, opts) for it in items]
+    with ctx.Pool(nproc, maxtasksperchild=opts.get("maxtasks", 400)) as pool:
         for st in pool.imap_unordered(_worker, work, chunksize=1):
             if st.error:
                 errors.append({"item": jsonable(st.item), "error": st.error})
